@@ -99,11 +99,17 @@ pub assume_specification [now] () -> (t: Timestamp);
 impl KrillRuntime {
     #[verifier::external_body] pub fn config(&self) -> (c: &Config) { unimplemented!() }
     #[verifier::external_body] pub fn signer(&self) -> (c: &KrillSigner) { unimplemented!() }
-    #[verifier::external_body] pub fn tasks(&self) -> (c: &TaskQueue) { unimplemented!() }
+    #[verifier::external_body] pub fn tasks(&self) -> (c: &TaskQueue) ensures *c == tasks_of(*self) { unimplemented!() }
 }
+pub uninterp spec fn tasks_of(k: KrillRuntime) -> TaskQueue;
+/// the task was put on the queue by `schedule` (ScheduleMode::ReplaceExistingSoonest: pending at the requested time or earlier, also
+/// while an instance of the task is running -- contract of the queue, units c09_queue / c09_events); `schedule_missing` (IfMissing)
+/// gives no such guarantee
+pub uninterp spec fn scheduled_now(q: TaskQueue, t: Task) -> bool;
 pub enum Task { RrdpUpdateIfNeeded, VxOther }
 impl TaskQueue {
-    #[verifier::external_body] pub fn schedule(&self, task: Task, t: Timestamp) -> (r: KrillResult<()>) { unimplemented!() }
+    #[verifier::external_body] pub fn schedule(&self, task: Task, t: Timestamp) -> (r: KrillResult<()>) ensures r is Ok ==> scheduled_now(*self, task) { unimplemented!() }
+    #[verifier::external_body] pub fn schedule_missing(&self, task: Task, t: Timestamp) -> (r: KrillResult<()>) { unimplemented!() }
 }
 
 /// the publisher registered under a handle in the access aggregate (store: assumed external)
@@ -152,7 +158,8 @@ def build():
     ])
     U.impl('impl RepositoryManager', [
         U.fn(MGR, 'RepositoryManager', 'list', external_body=True),
-        U.fn(MGR, 'RepositoryManager', 'publish'),
+        U.fn(MGR, 'RepositoryManager', 'publish', ensures=[
+            ('rrdp_update_follows_every_accepted_publication', 'r is Ok ==> scheduled_now(tasks_of(*krill), Task::RrdpUpdateIfNeeded)')]),
         U.fn(MGR, 'RepositoryManager', 'rfc8181_message', requires=[
             ('query_was_validated', '''exists |cms: PublicationCms| validated8181(self.access, *publisher_handle, cms) && msg_query(pcms_message(cms)) == Some(query)''')]),
         U.fn(MGR, 'RepositoryManager', 'rfc8181'),
